@@ -231,7 +231,9 @@ pub fn fabricate(s: &Sealed, db: &Db, net: NetID, height: u64, extra_history: &[
         transactions: Default::default(),
         proposer_action: None,
     };
-    SealedState::from_block(&blk, &fresh_stakes(s), db)
+    // re-labelling stands for "the same node, many blocks later": it keeps the node's in-memory stake set (with whatever that
+    // value carries); only a *restart* (`restart_from_disk`) builds the stake set anew from its documents
+    SealedState::from_block(&blk, &s.raw_stakes(), db)
 }
 
 /// Same as `fabricate` but also overrides the scalar header fields.
@@ -241,7 +243,7 @@ pub fn fabricate_with(s: &Sealed, db: &Db, net: NetID, height: u64, fee_pool: u1
     blk.header.fee_pool = CoinValue(fee_pool);
     blk.header.fee_multiplier = fee_mult;
     blk.header.dosc_speed = dosc_speed;
-    SealedState::from_block(&blk, &fresh_stakes(s), db)
+    SealedState::from_block(&blk, &s.raw_stakes(), db)
 }
 
 
@@ -263,9 +265,6 @@ pub fn restart_from_disk(s: &Sealed) -> Sealed {
     SealedState::from_block(&blk, &stakes, &db)
 }
 
-fn fresh_stakes(s: &Sealed) -> tip911_stakeset::StakeSet {
-    persisted(s).1
-}
 
 // ---------------------------------------------------------------------------------------------
 // raw observation
